@@ -1,0 +1,18 @@
+//go:build verif
+
+package sm2
+
+import "math/big"
+
+// VerifDeclassifyHook is set by the verification harness (build tag verif).
+// SignHashed calls it on x1, the affine x coordinate of [k]G, at the point
+// where that value stops being secret: r = (e + x1) mod n is published as
+// part of the signature. A taint-tracking monitor uses it to stop following
+// the nonce into the public value.
+var VerifDeclassifyHook func(words []big.Word)
+
+func verifDeclassify(x *big.Int) {
+	if VerifDeclassifyHook != nil {
+		VerifDeclassifyHook(x.Bits())
+	}
+}
